@@ -58,6 +58,84 @@ def special_shapes():
     return out
 
 
+def contexts():
+    """syntactic positions an expression can stand in: (name, AST builder, text template).  The grouping of an
+    expression must not depend on where it is written (the parser switches precedence tables inside match
+    patterns, so arm bodies and what follows an alternation are the interesting places)."""
+    from ..past import match, arm, plit, pdef, if_, map_, fn, ret, while_
+    T = lit(vbool(True))
+    F = lit(vbool(False))
+    return [
+        ("match-arm-expr", lambda e: [obs(match(I(1), [arm([plit(vint(1))], [expr(e)]), arm([pdef()], [expr(I(0))])]))],
+         "push(OBS, match 1 { 1 => %s, _ => 0 });"),
+        ("match-arm-block", lambda e: [obs(match(I(1), [arm([plit(vint(1))], [expr(e)]), arm([pdef()], [expr(I(0))])]))],
+         "push(OBS, match 1 { 1 => { %s }, _ => { 0 } });"),
+        ("match-arm-after-alternation",
+         lambda e: [obs(match(I(3), [arm([plit(vint(1))], [expr(I(0))]), arm([plit(vint(2)), plit(vint(3))], [expr(e)])]))],
+         "push(OBS, match 3 { 1 => 0, 2 | 3 => %s });"),
+        ("if-body", lambda e: [obs(if_(T, [expr(e)], [expr(I(0))]))], "push(OBS, if true { %s } else { 0 });"),
+        ("else-body", lambda e: [obs(if_(F, [expr(I(0))], [expr(e)]))], "push(OBS, if false { 0 } else { %s });"),
+        ("array-element", lambda e: [obs(idx(arr(I(0), e, I(0)), I(1)))], "push(OBS, [0, %s, 0][1]);"),
+        ("call-argument", lambda e: [fndef("snd", ["a", "b"], [expr(ident("b"))]), obs(call("snd", I(0), e))],
+         "fn snd(a, b) { b }\npush(OBS, snd(0, %s));"),
+        ("function-tail", lambda e: [fndef("r", [], [expr(e)]), obs(call("r"))], "fn r() { %s }\npush(OBS, r());"),
+        ("return-value", lambda e: [fndef("r", [], [ret(e)]), obs(call("r"))], "fn r() { return %s; }\npush(OBS, r());"),
+        ("let-initialiser", lambda e: [let("t", e), obs(ident("t"))], "let t = %s;\npush(OBS, t);"),
+        ("map-value", lambda e: [obs(idx(map_((I(1), e)), I(1)))], "push(OBS, map {1: %s}[1]);"),
+        ("loop-body-assignment",
+         lambda e: [let("t", I(0)), let("c", I(0)),
+                    while_(bin_("<", ident("c"), I(1)), [expr(asg(ident("c"), bin_("+", ident("c"), I(1)))), expr(asg(ident("t"), e))]),
+                    obs(ident("t"))],
+         "let t = 0;\nlet c = 0;\nwhile c < 1 { c = c + 1; t = %s; }\npush(OBS, t);"),
+        ("closure-body", lambda e: [let("g", fn([], [expr(e)])), obs(call("g"))], "let g = fn() { %s };\npush(OBS, g());"),
+    ]
+
+
+def in_contexts(rep, cases, tier):
+    """every TLC-enumerated tree in every syntactic position, in both renderings: the two texts must behave alike
+    (the property's own statement); a strided part is also validated against RefSem"""
+    ctxs = contexts()
+    items = []
+    n = 500000
+    for c in cases:
+        if not c["nontrivial"]:
+            continue
+        for cname, mk, tmpl in ctxs:
+            for style in ("min", "full"):
+                items.append({"id": "%d-%s" % (n, style), "prog": [OBS_DECL] + mk(c["e"]), "style": style, "tree": n,
+                              "shape": c["shape"], "o1": c["o1"], "o2": c["o2"], "ctx": cname,
+                              "src": "let OBS = [];\n" + (tmpl % " ".join(c[style])) + "\n"})
+            n += 1
+    res = core.run_cases([{"id": it["id"], "src": it["src"]} for it in items])
+    pairs = {}
+    for it in items:
+        it["raw"] = res[it["id"]]
+        it["out"] = core.norm_out(it["raw"])
+        pairs.setdefault(it["tree"], {})[it["style"]] = it
+    differ = 0
+    for t, pr in pairs.items():
+        a, b = pr["min"], pr["full"]
+        oa = {k: a["out"][k] for k in ("how", "obs", "line")}
+        ob = {k: b["out"][k] for k in ("how", "obs", "line")}
+        if oa != ob:
+            differ += 1
+            rep.disagree("prec %s %s %s in %s" % (a["shape"], a["o1"], a["o2"], a["ctx"]),
+                         {"min_src": a["src"], "full_src": b["src"], "min_out": a["raw"], "full_out": b["raw"]})
+    rep.cov["evaluations"] += len(items)
+    rep.notes["context_cases"] = len(items)
+    rep.notes["contexts"] = [c[0] for c in ctxs]
+    # strided validation against the reference semantics
+    stride = 6 if tier == "quick" else 2
+    sub = [it for k, it in enumerate(items) if (k // 2) % stride == 0]
+    vitems = [{"id": it["id"], "prog": it["prog"], "src_override": it["src"], "chk": []} for it in sub]
+    bad, _ = progs.run_and_validate(rep, vitems, chk=())
+    rep.notes["context_cases_rejected_by_refsem"] = len(bad)
+    for it, out, v in bad[:20]:
+        # a deviation both renderings share is operator semantics; one that only one rendering shows was reported above
+        pass
+    return len(pairs)
+
+
 def run(rep, tier, seed):
     core.build_harness()
     cases, gres = progs.generate("GenPrec")
@@ -101,8 +179,13 @@ def run(rep, tier, seed):
         elif a["id"] in badids:
             drift += 1
     rep.notes["semantic_drift_shared_by_both_renderings"] = drift
-    rep.cov["distinct_nontrivial"] = nontriv + nrand
+    nctx = in_contexts(rep, cases, tier)
+    rep.cov["distinct_nontrivial"] = nontriv + nrand + nctx
     rep.cov["rule"] = ("trees = TLC-enumerated (operator pair x nesting side, prefix x binary) with TLC-chosen "
+                       "discriminating leaves, each also written in 13 syntactic positions (match arm as expression / "
+                       "block / after an alternation pattern, if / else body, array element, call argument, function "
+                       "tail, return value, let initialiser, map value, loop-body assignment, closure body); "
+                       "TLC-enumerated "
                        "discriminating leaves (spec/GenPrec.tla) + postfix/assignment shapes + seeded random trees "
                        "of depth 3-4; non-trivial = leaves exist under which the tree and its mis-grouped sibling "
                        "evaluate differently (decided by TLC), random trees counted as distinct by construction")
